@@ -421,7 +421,7 @@ def plan_C04(tier, seed):
                 continue
             c = kcfg(kind, n, alt=n)
             sa, ba = free_alpha(kind, with_big=(n <= (1 if q else 2)))
-            if kind in BAR_ONLY and n >= (2 if q else 3):
+            if kind in BAR_ONLY and n >= 2:
                 ba = ba[:5]
             # every continuation is explored from every reachable state (the view keeps the history while a continuation
             # runs), so the quick tier takes two continuations and the thorough tier four
@@ -441,8 +441,8 @@ def plan_C04(tier, seed):
             unb = kind in UNBOUNDED
             depth = (n + 3 if q else n + 4) if unb else 10**6
             if kind in BAR_ONLY and n >= 2:
-                depth = min(depth, n + 4 + (0 if q else 1))
-            toks = ({"NaN", "PInf"} if n == 1 else {"NaN"}) if q else (TOKS4 if n <= 2 else {"NaN"})
+                depth = min(depth, n + 4)       # (one step more, with ten bars and four tokens, was 50 minutes of TLC for CE alone)
+            toks = ({"NaN", "PInf"} if n == 1 else {"NaN"}) if q else (TOKS4 if n <= 2 and kind not in BAR_ONLY else ({"NaN", "PInf"} if n <= 2 else {"NaN"}))
             jobs.append(Job("%s_n%d" % (kind, n), {1: c}, salpha=sa, balpha=ba, toks=toks, resets={1},
                             conts=conts, maxdepth=depth + n + 3, noovf=False, invariants=inv,
                             extra_defs="FreeDepth == FreeDepthOf(%d)" % depth, extra_cfg="CONSTRAINT FreeDepth"))
